@@ -98,6 +98,11 @@ class Engine:
         self.by_last = {}
         self.impl_index = {}
         self.closures = {}
+        self.fork_sites = {}
+        import os as _os
+        self.debug_slow = int(_os.environ.get('VERIF_DEBUG_SLOW', '0'))
+        self.frames = []
+        self.by_alias = {}
         self.callinfo = {}
         self.const_cache = {}
         self.summaries = {}
@@ -127,9 +132,12 @@ class Engine:
 
     def _index(self):
         for name, b in self.bodies.items():
-            m = re.search(r"<impl at ([^:>]+):(\d+):\d+: \d+:\d+>::([\w]+)$", name)
+            m = re.search(r"<impl at ([^:>]+):(\d+):(\d+): \d+:(\d+)>::([\w]+)$", name)
             if m:
                 info = self.src.impls.get((m.group(1), int(m.group(2))))
+                if info is None:
+                    info = self.src.derive_impl(m.group(1), int(m.group(2)), int(m.group(3)), int(m.group(4)))
+                m = re.search(r"<impl at ([^:>]+):(\d+):\d+: \d+:\d+>::([\w]+)$", name)
                 if info:
                     base, tr = info
                     self.impl_index.setdefault((base, tr, m.group(3)), name)
@@ -142,6 +150,11 @@ class Engine:
                     self.closures.setdefault(norm_coroutine_ident(cm.group(1)), name)
             last = name.split('::')[-1]
             self.by_last.setdefault(last, []).append(name)
+            am = re.search(r"(?:\w+::)*<impl at ([^:>]+):(\d+):(\d+): \d+:(\d+)>", name)
+            if am:
+                info = self.src.impls.get((am.group(1), int(am.group(2))))
+                if info and info[1] is None:
+                    self.by_alias.setdefault(name[:am.start()] + info[0] + name[am.end():], name)
 
     def body(self, name):
         b = self.bodies[name]
@@ -180,6 +193,10 @@ class Engine:
                 self.stats['bound_exceeded'] += 1
             self.stats['paths'] += 1
             self.stats['steps'] += self.path.steps
+            if self.debug_slow and self.path.steps > self.debug_slow:
+                import sys as _s
+                print('SLOW PATH steps=%d outcome=%s %s events=%s' % (self.path.steps, outcome, str(val)[:100],
+                      [e[0] for e in self.path.events][-30:]), file=_s.stderr, flush=True)
             if on_end:
                 on_end(outcome, val, self.path)
         return n
@@ -242,6 +259,8 @@ class Engine:
         f = self.check(z3.Not(cond))
         if t and f:
             self.stats['forks'] += 1
+            lab = label or self.cur_site()
+            self.fork_sites[lab] = self.fork_sites.get(lab, 0) + 1
             self.pending.append(p.decisions + [0])
             p.decisions.append(1)
             p.pos += 1
@@ -259,6 +278,9 @@ class Engine:
             return False
         raise PathDead()
 
+    def cur_site(self):
+        return self.frames[-1] if self.frames else '?'
+
     def choose(self, n, label=None):
         """nondeterministic choice among n alternatives (environment / harness enumeration)"""
         if n <= 1:
@@ -269,6 +291,7 @@ class Engine:
             p.pos += 1
             return d
         self.stats['forks'] += n - 1
+        self.fork_sites[label or '?'] = self.fork_sites.get(label or '?', 0) + n - 1
         for k in range(n - 1, 0, -1):
             self.pending.append(p.decisions + [k])
         p.decisions.append(0)
@@ -283,8 +306,8 @@ class Engine:
             return z3.Bool(nm)
         return z3.BitVec(nm, INTW[ty])
 
-    def event(self, kind, **data):
-        self.path.events.append((kind, data))
+    def event(self, ev_kind, **data):
+        self.path.events.append((ev_kind, data))
 
     def concrete(self, v, what='value'):
         """force a scalar to a concrete python value, forking over feasible values (small domains only)"""
@@ -584,7 +607,7 @@ class Engine:
         if k == 'closure':
             c = Closure(rv[1], [self.eval_operand(fr, o) for o in rv[2]], rv[3])
             if len(rv) > 4 and rv[4] in self.bodies:
-                self.closures.setdefault(rv[1], rv[4])
+                c.body = rv[4]      # macro-generated closures share one span-based ident: the def path disambiguates
             return c
         if k == 'coroutine':
             if len(rv) <= 4 or rv[4] not in self.bodies:
@@ -611,6 +634,8 @@ class Engine:
 
     def discriminant(self, v):
         if isinstance(v, Enum):
+            if v.ty == '__PrivResult':
+                return int(v.var[1:])
             tab = self.enums.get(v.ty)
             if tab is None or v.var not in tab:
                 # late-bound enum type (aggregate printed without its type, e.g. `Immediate`)
@@ -634,6 +659,8 @@ class Engine:
         p = strip_generics(path)
         segs = p.split('::')
         last = segs[-1]
+        if len(segs) >= 2 and segs[-2] == '__PrivResult':
+            return Enum('__PrivResult', last, vals)
         if len(segs) >= 2:
             ety = type_base(segs[-2])
             tab = self.enums.get(ety)
@@ -830,6 +857,13 @@ class Engine:
             mir.parse_body(body)
         self.entered.add(body.name)
         fr = Frame(body, args)
+        self.frames.append(body.name)
+        try:
+            return self._run(body, fr)
+        finally:
+            self.frames.pop()
+
+    def _run(self, body, fr):
         blocks = body.blocks
         bb = 0
         p = self.path
@@ -860,7 +894,12 @@ class Engine:
                 bb = t[1]
             elif k == 'call':
                 args2 = [self.eval_operand(fr, a) for a in t[3]]
-                r = self.call(t[2], args2, fr, t[5])
+                try:
+                    r = self.call(t[2], args2, fr, t[5])
+                except Panic as e:
+                    if len(e.trace) < 12:
+                        e.trace.append((body.name, t[5]))
+                    raise
                 if t[4] is None:
                     raise Panic('call to %s returned but MIR says it diverges' % t[2], t[5])
                 if t[1] is not None:
@@ -1043,6 +1082,9 @@ class Engine:
         if full in self.bodies and self.bodies[full].kind == 'fn':
             ci.target = full
             return
+        if full in self.by_alias:
+            ci.target = self.by_alias[full]
+            return
         cands = []
         for n in self.by_last.get(segs[-1], []):
             b = self.bodies[n]
@@ -1138,7 +1180,7 @@ class Engine:
         d = 0
         while isinstance(f, Ref) and d < 6:
             g = f.get()
-            if isinstance(g, (Closure, FnItem, Coroutine)) or isinstance(g, Ref) or \
+            if isinstance(g, (Closure, FnItem, Coroutine, PyCallable)) or isinstance(g, Ref) or \
                     (isinstance(g, Struct) and g.name in ('Box', 'Rc')):
                 f = g
                 d += 1
@@ -1153,7 +1195,7 @@ class Engine:
         if isinstance(f, FnItem):
             return self.call(f.path, args, None, None)
         if isinstance(f, Closure):
-            nm = self.closures.get(f.ident)
+            nm = f.body or self.closures.get(f.ident)
             if nm is None:
                 raise Unsupported('no body for closure %s' % f.ident)
             b = self.body(nm)
